@@ -364,6 +364,15 @@ def bigbatch_workloads(tier, seed, prop):
     return [(seed * 1000 + 900 + i, [0x000, 0x800, 0x102, 0x904][i % 4], 12 if tier == 'quick' else 24, i % 2) for i in range(n)]
 
 
+def blockfit_workloads(tier, seed, prop):
+    """Every second batch is sized so that its log record ends exactly at the end of a 32 KiB log block, after 0-2 further
+    full blocks (CRASH_BLOCKFIT): the boundary case of the log writer's fragmenting and of its hand-over to the kernel."""
+    if prop not in ('C03', 'C04'):
+        return []
+    n = 1 if tier == 'quick' else 4
+    return [(seed * 1000 + 950 + i, [0x000, 0x800, 0x102, 0x904][i % 4], 16 if tier == 'quick' else 30, 0) for i in range(n)]
+
+
 def workloads(tier, seed, prop):
     """(seed, optbits, nbatches, endmode). reuse_logs is bit 11; wb sizes bits 1-2; snappy bit 8."""
     base = [(0, 0x000), (1, 0x800), (2, 0x102), (3, 0x904)]
@@ -391,10 +400,11 @@ def run_disk(prop, tier, seed, extra=None):
     allw += [(w, 'race') for w in race_workloads(tier, seed, prop)]
     allw += [(w, 'reopen') for w in reopen_workloads(tier, seed, prop)]
     allw += [(w, 'bigbatch') for w in bigbatch_workloads(tier, seed, prop)]
+    allw += [(w, 'blockfit') for w in blockfit_workloads(tier, seed, prop)]
     for ((wseed, bits, nb, endmode), heavy) in allw:
         if out.full(): break
-        renv = {'CRASH_HEAVY': '1'} if heavy is True else {'CRASH_RACE': '1'} if heavy == 'race' else {'CRASH_REOPEN': '1'} if heavy == 'reopen' else {'CRASH_BIGBATCH': '1'} if heavy == 'bigbatch' else None
-        if heavy in ('race', 'reopen', 'bigbatch'): heavy = False
+        renv = {'CRASH_HEAVY': '1'} if heavy is True else {'CRASH_RACE': '1'} if heavy == 'race' else {'CRASH_REOPEN': '1'} if heavy == 'reopen' else {'CRASH_BIGBATCH': '1'} if heavy == 'bigbatch' else {'CRASH_BLOCKFIT': '1'} if heavy == 'blockfit' else None
+        if heavy in ('race', 'reopen', 'bigbatch', 'blockfit'): heavy = False
         plan = Plan(tier, prop)
         if heavy:
             plan.point_every = 12 if tier == 'quick' else 5; plan.only_classes = ['max', 'min']; plan.nested_every = 0; plan.model_images = False
@@ -503,9 +513,60 @@ def _c02_group_commit(prop, tier, seed, out):
     return {'ConcTrace': st}
 
 
+def _c03_wfile(prop, tier, seed, out):
+    """The buffered writable file under every log, MANIFEST and table write (WFile.tla): exhaustive check of the transcription
+    for a small buffer, then the real ldb_wfile_t driven along scripts of boundary-sized appends (0, 1, B-1, B, B+1, 2B, ...),
+    flushes, syncs and closes, with and without short writes; WFileTrace requires after every call that the file holds a
+    prefix of the appended stream, and all of it once flush / sync / close returned."""
+    import random, shutil
+    quick = tier == 'quick'
+    st = dict(states=0, transitions=0, executions=0)
+    r = c.tlc('WFileMC', 'WFileMC.cfg', workers=4, timeout=900, heap='4g', deadlock=False)
+    if r.error:
+        raise RuntimeError('WFileMC failed: %s' % r.error[:300])
+    st['mc'] = dict(states=r.distinct, transitions=r.generated, B=3, append_sizes='0..8')
+    lib = c.build_lib(); exe = c.build_driver('wfile', lib, shim=False)
+    rng = random.Random(seed * 31 + 5)
+    B = 65536
+    edge = [0, 1, 7, 4096, 32768, B - 1, B, B + 1, 2 * B - 1, 2 * B, 2 * B + 1]
+    d = c.scratch('wf'); sp = os.path.join(d, 'script.txt'); tp = os.path.join(d, 'wfile.ndjson'); calls = 0
+    with open(sp, 'w') as f:
+        for fi in range(3 if quick else 12):
+            f.write('R\nH %d\n' % (0 if fi % 3 != 2 else rng.choice([1 << 15, 50000, 1 << 16])))
+            total = 0
+            for _ in range(12 if quick else 20):
+                x = rng.random()
+                if x < 0.6:
+                    n = rng.choice(edge) if rng.random() < 0.6 else rng.choice([rng.randint(0, 200), rng.randint(0, B), B - rng.randint(0, 40)])
+                    if total + n > 700000: n = rng.randint(0, 100)
+                    total += n; f.write('A %d\n' % n)
+                elif x < 0.85: f.write('F\n')
+                else: f.write('S\n')
+                calls += 1
+            f.write('C\n'); calls += 1
+    p = c.sh([exe, sp, tp, os.path.join(d, 'file.bin')], timeout=300)
+    if p.returncode != 0:
+        p2 = c.sh([exe, sp, tp, os.path.join(d, 'file.bin')], timeout=300)
+        if p2.returncode == 0: raise RuntimeError('wfile driver failure not reproducible')
+        rd = c.replay_dir(prop, 'wfile'); shutil.copy(sp, os.path.join(rd, 'script.txt'))
+        json.dump(dict(kind='wfile', why='driver exit %s' % p.returncode, stderr=(p.stderr or '')[-500:]), open(os.path.join(rd, 'replay.json'), 'w'))
+        out.violation('the buffered writable file fails on a generated script (exit %s)' % p.returncode, rd, dict(kind='wfile_crash'))
+        c.rmtree(d); return {'WFile': st}
+    r = c.trace_validate('WFileTrace', 'WFileTrace.cfg', tp, timeout=1500, heap='6g')
+    st['states'] = r['res'].distinct; st['transitions'] = r['res'].generated; st['executions'] = 1; st['calls'] = calls
+    if not r['accepted']:
+        lines = open(tp).read().split('\n')
+        bad = lines[r['prefix']] if r['prefix'] is not None and r['prefix'] < len(lines) else None
+        rd = c.replay_dir(prop, 'wfile'); shutil.copy(tp, os.path.join(rd, 'trace.ndjson')); shutil.copy(sp, os.path.join(rd, 'script.txt'))
+        json.dump(dict(kind='wfile', line=r['prefix'], event=bad), open(os.path.join(rd, 'replay.json'), 'w'), indent=1)
+        out.violation('buffered writable file: bytes lost, reordered or still in user space after flush / sync / close: %s' % (bad or '')[:300], rd, dict(kind='wfile'))
+    c.rmtree(d)
+    return {'WFile': st}
+
+
 CHECKS = {
     'C02': lambda tier, seed: run_disk('C02', tier, seed, extra=_c02_group_commit),
-    'C03': lambda tier, seed: run_disk('C03', tier, seed),
+    'C03': lambda tier, seed: run_disk('C03', tier, seed, extra=_c03_wfile),
     'C04': lambda tier, seed: run_disk('C04', tier, seed, extra=_c04_visibility),
     'C05': lambda tier, seed: run_disk('C05', tier, seed),
 }
